@@ -97,58 +97,60 @@ def extract(run):
 
 
 def derived_quantity_stream(run, n):
-    """the derived quantities reach the model as defined: the bootstrap fits regress the reporting units' normalised margin
-    (dem - gop) / (dem + gop) and turnout factor (dem + gop) / (baseline dem + baseline gop); observed at the OLS solver"""
+    """the derived quantities in the frame the models read (`CombinedDataHandler.data`): margin = dem - gop, two-party weights
+    = dem + gop, normalised margin = margin / weights, turnout factor = weights / baseline weights - each 0 where its denominator is 0,
+    never NaN or infinite; elections with many third-party votes (two-party and total turnout differ)"""
+    import math
+
     import numpy as np
 
     C.use_repo()
-    from elexsolver.OLSRegressionSolver import OLSRegressionSolver as OLS
+    from elexmodel.handlers.data.CombinedData import CombinedDataHandler
+    from elexmodel.handlers.data.PreprocessedData import PreprocessedDataHandler
 
     rng = run.rng
     for _ in range(n):
-        case = A.gen_case(rng, pi_method="bootstrap", roles=["reporting"] * 6 + ["partial"] * 3 + ["third-party-heavy"] * 3, unexpected=False)
-        case["params"] = dict(case["params"], turnout_factor_upper=3.0, turnout_factor_lower=0.1)
-        case["tf_lo"], case["tf_hi"] = 0.1, 3.0
-        ys = []
-        orig = OLS.fit
-
-        def rec(s, x, y, *a, **kw):
-            ys.append(sorted(float(v) for v in np.asarray(y).ravel()))
-            return orig(s, x, y, *a, **kw)
-
-        OLS.fit = rec
+        e = E.gen_election(rng, size="small", roles=["reporting"] * 5 + ["partial"] * 2 + ["third-party-heavy"] * 3 + ["zero-baseline", "zero-percent"],
+                           unexpected=False)
+        derived = rng.random() < 0.4
+        cur = e.cur.copy()
+        if derived:  # a feed that already carries the derived columns (it went through the Estimandizer once)
+            cur["results_weights"] = cur["results_dem"] + cur["results_gop"]
+            cur["results_margin"] = cur["results_dem"] - cur["results_gop"]
+            with np.errstate(all="ignore"):
+                cur["results_normalized_margin"] = np.nan_to_num(cur["results_margin"] / cur["results_weights"], nan=0, posinf=0, neginf=0)
+        case = {"derived_quantities": True, "election": e.describe(), "feed_with_derived_columns": derived}
+        run.case(case, True)
+        run.count("derived quantities in the handler frame")
         try:
-            res = A.run_case(case)
-        finally:
-            OLS.fit = orig
-        L = A.light(case)
-        run.case(dict(L, derived_quantities=True), True)
-        run.count("derived quantities at the solver")
-        if "raises" in res:
+            with np.errstate(all="ignore"):
+                pre = PreprocessedDataHandler(E.ELECTION_ID, e.office, e.unit_type, ["margin"], {"margin": "margin"}, data=e.pre.copy()).data
+                data = CombinedDataHandler(pre, cur, ["margin"], e.unit_type, handle_unreporting="drop").data
+        except Exception as ex:
+            run.violation("building the combined frame failed: " + type(ex).__name__, input=case, impl=str(ex)[:200],
+                          predicate="derived quantities", signature="C09:derived-raise", election=e.to_json())
             continue
-        e = case["election"]
-        ud = res["tables"]["unit_data"]
-        fitted = set(ud[(ud.unit_category == "expected") & (ud.reporting == 1)].geographic_unit_fips)
-        cur = e.cur.set_index("geographic_unit_fips")
-        pre = e.pre.set_index("geographic_unit_fips")
-        nm, tf = [], []
-        for u in fitted:
-            d, g = float(cur.loc[u, "results_dem"]), float(cur.loc[u, "results_gop"])
-            nm.append((d - g) / (d + g) if d + g else 0.0)
-            tf.append((d + g) / float(pre.loc[u, "baseline_dem"] + pre.loc[u, "baseline_gop"]))
-
-        def present(want):
-            want = sorted(want)
-            return any(len(y) == len(want) and all(abs(a - b) <= 1e-12 * max(1.0, abs(b)) for a, b in zip(y, want)) for y in ys)
-
-        if not present(nm):
-            run.violation("no regression of the bootstrap run is fitted on the reporting units' normalised margins (dem - gop) / (dem + gop)",
-                          input=L, impl={"fits": len(ys)}, predicate="normMargin definition", signature="C09:normalized-margin",
-                          replay_case=A.case_json(case))
-        elif not present(tf):
-            run.violation("no regression of the bootstrap run is fitted on the reporting units' two-party turnout factors",
-                          input=L, impl={"fits": len(ys)}, predicate="turnoutFactor definition", signature="C09:turnout-factor",
-                          replay_case=A.case_json(case))
+        base = e.pre.set_index("geographic_unit_fips")
+        feed = e.cur.set_index("geographic_unit_fips")
+        bad = None
+        for r in data.to_dict(orient="records"):
+            u = r["geographic_unit_fips"]
+            d, g = float(feed.loc[u, "results_dem"]), float(feed.loc[u, "results_gop"])
+            bw = float(base.loc[u, "baseline_dem"] + base.loc[u, "baseline_gop"])
+            want = {"results_margin": d - g, "results_weights": d + g,
+                    "results_normalized_margin": (d - g) / (d + g) if d + g else 0.0,
+                    "turnout_factor": (d + g) / bw if bw else 0.0, "baseline_weights": bw}
+            for k, w in want.items():
+                got = r.get(k)
+                if got is None or not math.isfinite(float(got)) or abs(float(got) - w) > 1e-12 * max(1.0, abs(w)):
+                    bad = (u, k, got, w)
+                    break
+            if bad:
+                break
+        if bad:
+            run.violation("a derived quantity does not follow its definition (or is NaN / infinite)", input=case,
+                          impl={"unit": bad[0], "column": bad[1], "value": None if bad[2] is None else float(bad[2])}, expected=bad[3],
+                          predicate="margin / twoParty / normMargin / turnoutFactor", signature="C09:derived", election=e.to_json())
         else:
             run.traces += 1
 
